@@ -44,3 +44,9 @@ Definition run_sparse (x : sx) : sx :=
   | lab :: _ => let r := slabel_row lab v in
                 L_ (show r ++ [L_ (map (fun k => enc_oz (sget r k)) qs); enc_oz (slabel lab v); L_ (show (sfeats lab v))])
   end.
+
+(* EncodeCatRows('onehot') over a dense row.  request: ((0 z) | (1 i n) ...) -> the numbers of the encoded row *)
+From Coba Require C13.ModelEncodeCat.
+Definition run_encode_cat (x : sx) : sx :=
+  let cell_of := fun c => match as_z (nth_sx 0 c) with 0 => ModelEncodeCat.Num (as_z (nth_sx 1 c)) | _ => ModelEncodeCat.Cat (as_nat (nth_sx 1 c)) (as_nat (nth_sx 2 c)) end in
+  L_ (map (fun c => match c with ModelEncodeCat.Num z => Z_ z | ModelEncodeCat.Cat i n => L_ [of_nat i; of_nat n] end) (ModelEncodeCat.encode_flat (map cell_of (as_l x)))).
